@@ -217,18 +217,34 @@ def assembler(ctx):
     symex.reset()
     NT, NR, NE = opaque_atom("#nshape_test"), opaque_atom("#nshape_trial"), opaque_atom("#elements")
     els = Arr("elements", "input", ndim=1, shape=[NE])
-    it = Interp(m, fa, {"elements": els, "nshape_test": NT, "nshape_trial": NR}, {"globals": {"_np": Opq("_np", "module")}})
+    # the locals by role: launch slots 1, 2, 3 are (test count, trial count, element list); the function returns (rows, cols, values)
+    if len(call.args) < 4 or not all(isinstance(a, ast.Name) for a in call.args[1:4]):
+        raise AnalysisError("assemble_sparse: the kernel launch does not receive the shape function counts and the element list as local names")
+    nT, nR, nE = (a.id for a in call.args[1:4])
+    rets = [s for s in fa.body if isinstance(s, ast.Return)]
+    if len(rets) != 1 or not (isinstance(rets[0].value, ast.Tuple) and len(rets[0].value.elts) == 3):
+        raise AnalysisError("assemble_sparse: `return <rows>, <cols>, <values>` not found")
+    I_, J_, RES_ = rets[0].value.elts
+    it = Interp(m, fa, {nE: els, nT: NT, nR: NR}, {"globals": {"_np": Opq("_np", "module")}})
     # verify the provenance of the two names first
-    okn = roles.canon(ast.Name(id="nshape_test", ctx=ast.Load(), lineno=call.lineno), defs) == "%s.number_of_shape_functions" % DT and \
-        roles.canon(ast.Name(id="nshape_trial", ctx=ast.Load(), lineno=call.lineno), defs) == "%s.number_of_shape_functions" % D
+    okn = roles.canon(ast.Name(id=nT, ctx=ast.Load(), lineno=call.lineno), defs) == "%s.number_of_shape_functions" % DT and \
+        roles.canon(ast.Name(id=nR, ctx=ast.Load(), lineno=call.lineno), defs) == "%s.number_of_shape_functions" % D and unparse(RES_) == unparse(call.args[-1])
+    simple = {st.targets[0].id: st for st in fa.body if isinstance(st, ast.Assign) and len(st.targets) == 1 and isinstance(st.targets[0], ast.Name)}
+    wanted, todo = set(), [n.id for e in (I_, J_) for n in ast.walk(e) if isinstance(n, ast.Name)]
+    while todo:
+        nm = todo.pop()
+        if nm in wanted or nm in (nT, nR, nE) or nm not in simple:
+            continue
+        wanted.add(nm)
+        todo.extend(n.id for n in ast.walk(simple[nm].value) if isinstance(n, ast.Name))
     for st in fa.body:
-        if isinstance(st, ast.Assign) and isinstance(st.targets[0], ast.Name) and st.targets[0].id in ("irange", "jrange", "i_ind", "j_ind"):
+        if isinstance(st, ast.Assign) and isinstance(st.targets[0], ast.Name) and st.targets[0].id in wanted:
             it.stmt(st)
     k, i, j = symex.fresh("k"), symex.fresh("i"), symex.fresh("j")
     symex.RANGES[k], symex.RANGES[i], symex.RANGES[j] = NE, NT, NR
     slot = NT * NR * V.atom(k) + V.atom(i) * NR + V.atom(j)
-    gi = tov(it.index(it.env["i_ind"], [slot], fa))
-    gj = tov(it.index(it.env["j_ind"], [slot], fa))
+    gi = tov(it.index(it.ev(I_), [slot], fa))
+    gj = tov(it.index(it.ev(J_), [slot], fa))
     r2.check(okn and gi.eq(NT * opaque_atom("elements", [V.atom(k)]) + V.atom(i)), "i_ind", SPA, fa.name, fa.lineno, "sparse i_ind[slot] = %r" % gi, "row index of slot (k,i,j) is %r" % gi)
     r2.check(okn and gj.eq(NR * opaque_atom("elements", [V.atom(k)]) + V.atom(j)), "j_ind", SPA, fa.name, fa.lineno, "sparse j_ind[slot] = %r" % gj, "column index of slot (k,i,j) is %r" % gj)
     # scatter in SparseAssembler.assemble
